@@ -18,7 +18,6 @@ Proof. unfold tailchar. now intros ->. Qed.
 Definition val2 (a b : N) : Z := 10 * dval a + dval b.
 Definition val4 (a b c d : N) : Z := 1000 * dval a + 100 * dval b + 10 * dval c + dval d.
 
-Definition is_sep (x : N) : bool := N.eqb x cT || N.eqb x cSp.
 
 Ltac digit_chars :=
   change (headchar cDash) with true; change (tailchar cColon) with true;
@@ -253,7 +252,6 @@ Proof.
     rewrite val4_dig, !val2_dig by lia. rewrite mk_datetime_valid by (try assumption; unfold valid_time; lia). reflexivity.
 Qed.
 
-Definition not_minus (sf : suffix) : bool := match sf with SMinus _ _ _ => false | _ => true end.
 
 Theorem dateonly_roundtrip y m d sf :
   valid_date y m d = true -> valid_suffix sf = true -> not_minus sf = true ->
